@@ -200,7 +200,11 @@ def truth(v):
         z3.If(Val.is_vclist(v), z3.Length(Val.citems(v)) > 0,
         z3.If(Val.is_vtup(v), z3.Length(Val.titems(v)) > 0,
         z3.If(Val.is_vdict(v), Val.dkeys(v) != z3.K(z3.StringSort(), z3.BoolVal(False)),
-              z3.BoolVal(True)))))))))
+              OBJ_TRUTHY(v)))))))))
+
+
+# truthiness of any other object (sets, user classes with __bool__/__len__) is not known
+OBJ_TRUTHY = z3.Function('obj_truthy', Val, z3.BoolSort())
 
 
 def listlike_items(v):
